@@ -141,11 +141,50 @@ void harness(void) { uint64_t a, b;
   __CPROVER_assert(a == b || FlexMem_block(a) != FlexMem_block(b) || FlexMem_offset(a) != FlexMem_offset(b), "U5 distinct ids get distinct slots");
   __CPROVER_assert(0, "canary"); }''', replay=('c12_index', lambda cex, o: ['flex'])))
 
+# ---- sparse maps (VectorBasedSparseMap): lookup on the sorted vector of (id, value) pairs ------------------------------------------------------
+SPARSE_PRELUDE = '''
+typedef uint64_t TId; typedef uint64_t TValue;
+#define VERIF_EMPTY_VALUE ((TValue)0)
+struct element_type { TId first; TValue second; };
+typedef struct element_type element_type;
+struct vvec_pair { element_type* data; size_t size; };
+struct VectorBasedSparseMap { struct vvec_pair m_vector; };
+size_t ghost_lb;   /* ghost: the position std::lower_bound returns */
+size_t ghost_g;    /* ghost: an arbitrary position of the vector at which the map is observed */
+/* find_id(id) = std::lower_bound over the ids (assumed contract, C++ standard, for a vector sorted by id): the first position whose id is not less than id */
+const element_type* VectorBasedSparseMap_find_id(const struct VectorBasedSparseMap* self, TId id)
+__CPROVER_requires(__CPROVER_r_ok(self, sizeof(*self)) && ghost_lb <= self->m_vector.size)
+__CPROVER_assigns()
+__CPROVER_ensures(__CPROVER_pointer_equals(__CPROVER_return_value, self->m_vector.data + ghost_lb));
+/* what "sorted by id, ids distinct" says about the lower bound position and the observed position */
+#define SORTED_AT(s, id) ((ghost_lb >= (s)->m_vector.size || (s)->m_vector.data[ghost_lb].first >= (id)) && (ghost_lb == 0 || (s)->m_vector.data[ghost_lb - 1].first < (id)) && \\
+   (ghost_g >= (s)->m_vector.size || ((ghost_g < ghost_lb ? (s)->m_vector.data[ghost_g].first <= (s)->m_vector.data[ghost_lb - 1].first : 1) && \\
+                                      (ghost_g > ghost_lb && ghost_lb < (s)->m_vector.size ? (s)->m_vector.data[ghost_g].first > (s)->m_vector.data[ghost_lb].first : 1))))
+'''
+SP_PRE = [(r'm_vector\.end\(\)', '(m_vector.data + m_vector.size)'), (r'osmium::index::empty_value<TValue>\(\)', 'VERIF_EMPTY_VALUE', '?'), (r'throw osmium::not_found\{id\};', 'throw osmium::not_found{};', '?')]
+SP_REQ = ('verif_exc == 0 && __CPROVER_is_fresh(self, sizeof(*self)) && self->m_vector.size <= 1000000 && __CPROVER_is_fresh(self->m_vector.data, (self->m_vector.size + 1) * sizeof(element_type)) && '
+          'ghost_lb <= self->m_vector.size && SORTED_AT(self, id)')
+for nm, noexc in (('get', False), ('get_noexcept', True)):
+    u = Unit(VM, nm, cls='VectorBasedSparseMap', selftype='const struct VectorBasedSparseMap', nth=0, pre=SP_PRE, stub_siblings={'find_id': 'VectorBasedSparseMap_find_id'}, ret='TValue', params=['const TId id'])
+    found = '(ghost_g < self->m_vector.size && self->m_vector.data[ghost_g].first == id)'
+    missing = '(verif_exc == EXC_not_found)' if not noexc else '(__CPROVER_return_value == VERIF_EMPTY_VALUE)'
+    PIPELINES.append(Pipeline('U6_sparse_' + nm, units=[u], prelude=SPARSE_PRELUDE, contracts={'VectorBasedSparseMap_' + nm: [
+        ('pre:a vector sorted by id with distinct ids (sort() has been called), observed at an arbitrary position', 'requires', SP_REQ),
+        ('post:an id that is in the map is found and its own value is returned', 'ensures', '!%s || (verif_exc == 0 && __CPROVER_return_value == self->m_vector.data[ghost_g].second)' % found),
+        ('post:for an id that is not in the map the lookup reports "not found" - it never returns the value of a neighbouring id', 'ensures',
+         '(ghost_lb < self->m_vector.size && self->m_vector.data[ghost_lb].first == id) || ' + missing),
+        ('post:exception class', 'ensures', 'verif_exc == 0' if noexc else 'verif_exc == 0 || verif_exc == EXC_not_found'),
+        ('frame', 'assigns', '' if noexc else 'verif_exc')]},
+        replace=['VectorBasedSparseMap_find_id'], enforce='VectorBasedSparseMap_' + nm,
+        harness='void harness(void) { const struct VectorBasedSparseMap* m; TId id; VectorBasedSparseMap_%s(m, id); __CPROVER_assert(0, "canary"); }' % nm,
+        replay=('c12_index', lambda cex, o: ['search']), note='relative to the std::lower_bound contract; ids and values 64-bit; any vector length up to 10^6'))
+
 TRUSTED = ['std::vector / mmap_vector resize fills new slots with the empty value', 'std::lower_bound on a sorted vector', 'emplace_back / the dense block store as abstracted by the ghost view (assumed contracts)']
 ASSUMPTIONS = ['dense vector maps of at most 2^24 slots in the model (object-size bound; no loop depends on it)']
-NOT_DECIDED = ['file-backed persistence, real mremap', 'sparse lookup through std::lower_bound', 'switch_to_dense loop body, assure_block', 'NodeLocationsForWays', 'dump_as_array']
+NOT_DECIDED = ['file-backed persistence, real mremap', 'switch_to_dense loop body, assure_block', 'NodeLocationsForWays', 'dump_as_array']
 LEVEL_TEXT = ('Proof for the in-memory kernels: VectorBasedDenseMap set/get/get_noexcept against the abstract map observed at an arbitrary id (set updates exactly one id, lookups return '
               'exactly the stored value and report never-set ids as not found / empty); FlexMem set_sparse/set/get/get_noexcept against an abstract view that follows the active '
-              'representation, including the call in which the index switches itself from sparse to dense; the block/offset split of the dense store is injective.')
+              'representation, including the call in which the index switches itself from sparse to dense; the block/offset split of the dense store is injective. VectorBasedSparseMap get/get_noexcept on the sorted pair vector, relative to the std::lower_bound contract: '
+              'an id that is in the map is found and gets its own value, any other id is reported as not found (never the value of a neighbour).')
 LEVEL_NOTE = ('Trusted: CBMC, extraction rules; containers are abstracted (array+size for the dense vector with an assumed resize contract; for FlexMem the containers are observed only at a ghost id through '
-              'assumed contracts of emplace_back, set_dense/get_dense/get_sparse and switch_to_dense). Not decided: persistence, mremap, sparse lower_bound lookup, switch_to_dense body, NodeLocationsForWays.')
+              'assumed contracts of emplace_back, set_dense/get_dense/get_sparse and switch_to_dense). Not decided: persistence, mremap, std::sort/std::lower_bound themselves, dump_as_array, switch_to_dense body, NodeLocationsForWays.')
